@@ -286,6 +286,14 @@ class Interp(object):
 
     def getattr(self, obj, name):
         ctx = self.ctx
+        if isinstance(obj, VRef) and isinstance(self.ctx.cell(obj),
+                                                 StreamCell):
+            if name == 'closed':
+                return VBool(self.ctx.cell(obj).closed)
+            if name not in ('read', 'seek', 'tell', 'write', 'getvalue',
+                            'close', 'readline', 'flush', '__enter__',
+                            '__exit__'):
+                raise Unsupported('stream attribute %s' % name)
         if isinstance(obj, VRef):
             c = ctx.cell(obj)
             if isinstance(c, ObjCell):
